@@ -336,7 +336,7 @@ pub fn all_heap_program() -> Program {
         ]),
         docs: vec!["En docs".into()],
     };
-    Program { krate: "krate".into(), defs: vec![inner, heap, en], markers: vec![], roots: vec![Ty::Def(1, vec![]), Ty::Def(2, vec![])] }
+    Program { krate: "krate".into(), defs: vec![inner, heap, en], markers: vec![], roots: vec![Ty::Def(1, vec![]), Ty::Def(2, vec![])], prefix: vec![] }
 }
 
 pub fn run(ctx: &mut Ctx) {
